@@ -1,6 +1,8 @@
 (* Lemmas about Model/VisualAttrs.v (C13). *)
 From Coq Require Import List NArith QArith Bool Arith Lia Sorted Permutation.
 From Similari Require Import Model.VisualAttrs.
+From Similari Require Base.Num Proofs.VisualGateProofs.
+From SimilariGen Require Scalar ScalarBox ScalarVisual.
 Import ListNotations.
 Local Open Scope nat_scope.
 
@@ -210,10 +212,42 @@ Proof.
   change (removelast (x :: y :: l)) with (x :: removelast (y :: l)). cbn [length] in *. rewrite IH. reflexivity.
 Qed.
 
+(* the translated truncation step is "drop the last one when the list is at least max_obs long" *)
+Lemma optimize_observations_eq max_obs g :
+  optimize_observations max_obs g =
+  if max_obs <=? length (sort_desc (filter g_feat g)) then removelast (sort_desc (filter g_feat g)) else sort_desc (filter g_feat g).
+Proof.
+  unfold optimize_observations. cbv zeta.
+  destruct (ScalarVisual.visual_truncate_cmp Num.Qops (N.of_nat (length (sort_desc (filter g_feat g)))) (N.of_nat max_obs)) eqn:E.
+  - apply VisualGateProofs.visual_truncate_cmp_spec in E.
+    destruct (Nat.leb_spec max_obs (length (sort_desc (filter g_feat g)))) as [H|H]; [|lia].
+    rewrite VisualGateProofs.visual_truncate_len_spec, removelast_firstn_len. f_equal. lia.
+  - destruct (Nat.leb_spec max_obs (length (sort_desc (filter g_feat g)))) as [H|H]; [|reflexivity].
+    assert (T : ScalarVisual.visual_truncate_cmp Num.Qops (N.of_nat (length (sort_desc (filter g_feat g)))) (N.of_nat max_obs) = true)
+      by (apply VisualGateProofs.visual_truncate_cmp_spec; lia).
+    congruence.
+Qed.
+
+(* the collect / use gate, in terms of the facts the oracle supplies *)
+Lemma box_of_area_area a : (ScalarBox.ubox_area Num.Qops (box_of_area a) == a)%Q.
+Proof.
+  unfold ScalarBox.ubox_area, box_of_area. cbn [Scalar.Universal2DBox_height Scalar.Universal2DBox_aspect Num.mul Num.Qops].
+  rewrite !Qred_correct. ring.
+Qed.
+
+Lemma feature_can_be_used_iff min_area area q min_q own min_own :
+  feature_can_be_used min_area area q min_q own min_own = true <->
+  (min_area <= area)%Q /\ (min_q <= q)%Q /\ (forall p, own = Some p -> (min_own <= p)%Q).
+Proof.
+  unfold feature_can_be_used. rewrite VisualGateProofs.feature_can_be_used_spec, box_of_area_area. split.
+  - intros (A & B & C). repeat split; auto. intros p E. destruct C as [C|(p' & C & D)]; [congruence|]. rewrite C in E. injection E as <-. exact D.
+  - intros (A & B & C). repeat split; auto. destruct own as [p|]; [right; exists p; split; [reflexivity | apply C; reflexivity] | left; reflexivity].
+Qed.
+
 Lemma optimize_observations_length max_obs g :
   1 <= max_obs -> length (filter g_feat g) <= max_obs -> S (length (optimize_observations max_obs g)) <= max_obs.
 Proof.
-  intros Hm Hl. unfold optimize_observations. rewrite sort_desc_length.
+  intros Hm Hl. rewrite optimize_observations_eq. rewrite sort_desc_length.
   destruct (Nat.leb_spec max_obs (length (filter g_feat g))) as [Hc|Hc].
   - rewrite removelast_length, sort_desc_length. lia.
   - rewrite sort_desc_length. lia.
@@ -242,7 +276,7 @@ Lemma optimize_observations_spec max_obs g :
     (max_obs <= length (filter g_feat g) ->
        exists x, ev = [x] /\ forall y, In y (filter g_feat g) -> (g_q x <= g_q y)%Q).
 Proof.
-  intros Hm. unfold optimize_observations. rewrite sort_desc_length.
+  intros Hm. rewrite optimize_observations_eq. rewrite sort_desc_length.
   set (f := filter g_feat g).
   destruct (Nat.leb_spec max_obs (length f)) as [Hc|Hc].
   - assert (Hne : sort_desc f <> []).
@@ -278,7 +312,7 @@ Proof.
   assert (H : Forall (fun e => g_feat e = true) (sort_desc (filter g_feat g))).
   { rewrite Forall_forall. intros e He. apply (Permutation_in _ (sort_desc_perm _)) in He.
     apply filter_In in He. tauto. }
-  unfold optimize_observations. destruct (Nat.leb max_obs (length (sort_desc (filter g_feat g)))); [|exact H].
+  rewrite optimize_observations_eq. destruct (Nat.leb max_obs (length (sort_desc (filter g_feat g)))); [|exact H].
   rewrite Forall_forall in *. intros e He. apply H.
   destruct (sort_desc (filter g_feat g)) as [|x l] eqn:E; [destruct He|].
   assert (Hne : x :: l <> []) by congruence.
